@@ -188,6 +188,49 @@ type c17CLICase struct {
 	Sink string `json:"sink"`           // "devfull-inprocess" | "devfull-binary" | "closed-pipe-binary"
 	Big  bool   `json:"big"`            // report larger than the stdout buffer
 	Days int    `json:"days,omitempty"` // explicit number of log days (medium-sized reports: larger than the file-size limit, smaller than the buffer)
+	// Shape: "" | "epoch-last" (the last record is dated 1970/01/01, second 0 of the Unix clock) | "zero-first" (the first
+	// record is dated 0001/01/01) | "rows:N" (a log of exactly N entries in days of 256 different foods: 255/256/257, 65535/65536/65537)
+	Shape string `json:"shape,omitempty"`
+}
+
+// c17ShapedFiles builds the log for a Shape (the recipe book is the small one).
+func c17ShapedFiles(shape string) (string, string) {
+	var lb strings.Builder
+	bb := "meal:\n  x: 2\n  y: -3\nmeal2:\n  meal: 2\n  x: 1\n"
+	day := func(d int, n int) {
+		lb.WriteString(vFmtDay(d, "") + ":\n")
+		for i := 0; i < n; i++ {
+			if i == 0 {
+				lb.WriteString("  meal: 1\n")
+			} else {
+				fmt.Fprintf(&lb, "  food %d: %d\n", i, i%9+1)
+			}
+		}
+	}
+	switch {
+	case shape == "epoch-last":
+		day(3, 4)
+		day(5, 4)
+		day(vDaysFromCivil(1970, 1, 1), 4)
+	case shape == "zero-first":
+		day(vZeroDay, 4)
+		day(3, 4)
+		day(5, 4)
+	case strings.HasPrefix(shape, "rows:"):
+		n := 0
+		fmt.Sscanf(shape, "rows:%d", &n)
+		for d := 0; n > 0; d++ {
+			k := 256
+			if n < k {
+				k = n
+			}
+			day(d, k)
+			n -= k
+		}
+	default:
+		vFault("unknown shape %q", shape)
+	}
+	return vWriteFile("c17-log.yaml", lb.String()), vWriteFile("c17-book.yaml", bb)
 }
 
 func c17FilesN(days int) (string, string) {
@@ -224,6 +267,10 @@ func checkC17CLI(c c17CLICase, ctx *vCtx) *vFailure {
 	if c.Days > 0 {
 		lp, bp = c17FilesN(c.Days)
 	}
+	if c.Shape != "" {
+		lp, bp = c17ShapedFiles(c.Shape)
+		ctx.Label("shape:" + strings.SplitN(c.Shape, ":", 2)[0])
+	}
 	args := make([]string, len(cmd.args))
 	for i, a := range cmd.args {
 		args[i] = strings.ReplaceAll(strings.ReplaceAll(a, "@LOG@", lp), "@BOOK@", bp)
@@ -232,6 +279,10 @@ func checkC17CLI(c c17CLICase, ctx *vCtx) *vFailure {
 	// control: the report is not empty
 	r := vRunApp(inv)
 	ctx.Run(1)
+	if c.Shape != "" && !r.Failed && r.Stdout == "" {
+		ctx.Excluded("the command prints nothing for this shaped log")
+		return nil
+	}
 	if r.Failed || r.Stdout == "" {
 		vFault("C17: control run of %v: failed=%v, %d bytes", cmd.args, r.Failed, len(r.Stdout))
 	}
@@ -438,6 +489,12 @@ func c17CLISpace() []c17CLICase {
 			}
 		}
 		out = append(out, c17CLICase{Cmd: ci, Sink: "regular-file-size-limit", Big: true})
+		for _, shape := range []string{"epoch-last", "zero-first", "rows:255", "rows:256", "rows:257", "rows:65535", "rows:65536", "rows:65537"} {
+			if strings.HasPrefix(shape, "rows:6") && !vThorough() && shape != "rows:65536" {
+				continue // quick: the exact power of two only
+			}
+			out = append(out, c17CLICase{Cmd: ci, Sink: "devfull-inprocess", Shape: shape})
+		}
 		for _, days := range []int{8, 15, 25, 40} { // reports of roughly 0.5 - 4 KiB: the refusal is first seen by the final flush
 			out = append(out, c17CLICase{Cmd: ci, Sink: "regular-file-size-limit", Days: days})
 			out = append(out, c17CLICase{Cmd: ci, Sink: "devfull-binary", Days: days})
